@@ -1,18 +1,23 @@
 """C17 - chk2plt carries the checkpoint's interior state into a valid plotfile."""
 from props.C01 import ASSUMPTIONS as A01, TRUSTED as T01
 
-ASSUMPTIONS = A01 + ["checkpoint header text, ghost stripping, flooring and subset concatenation are covered by the bounded "
-                     "run-time layer on synthetic checkpoints in this round"]
+ASSUMPTIONS = A01 + ["checkpoint header text parsing is covered by the bounded run-time layer on synthetic checkpoints; the worker "
+                     "(ghost stripping, flooring, subset concatenation, min/max) is under contract (U); the parent's task "
+                     "construction and result scatter are proved on a bounded skeleton (3 boxes over 2 state files, concrete "
+                     "file names; offsets, index ranges and returned values symbolic; np.argsort modelled as a stable rank "
+                     "computation, keys assumed distinct)"]
 TRUSTED = T01
 from props.chk_kernels import chk_tasks, chk_canaries
 
 
 def tasks(tier):
-    return chk_tasks("C17", tier)
+    from props.chk_parents import parent_tasks
+    return chk_tasks("C17", tier) + parent_tasks(tier)
 
 
 def canaries(tier):
-    return chk_canaries()
+    from props.chk_parents import parent_canaries
+    return chk_canaries() + parent_canaries()
 
 
 SCENARIO_TIMEOUT = 400
